@@ -23,30 +23,34 @@ VARIABLES
 Kinds == {"Point", "Matrix", "Color", "Length", "Move", "Line", "Close", "QuadraticBezier",
           "CubicBezier", "Arc", "Path", "PathT", "Subpath", "Rect", "RRect", "Circle", "Ellipse",
           "SimpleLine", "Polyline", "Polygon", "Group", "GroupNested", "GroupMixed", "Text", "Image",
-          "RectLen", "CircleLen"}       \* shapes whose position is still an unrendered Length (e.g. x="10%")
+          "RectLen", "CircleLen",       \* shapes whose position is still an unrendered Length (e.g. x="10%")
+          "TextLen", "ImageLen", "MatrixLen"}   \* text, image and matrix whose position / translation is a Length
 Segments == {"Move", "Line", "Close", "QuadraticBezier", "CubicBezier", "Arc"}
 Shapes   == {"Path", "PathT", "Rect", "RRect", "Circle", "Ellipse", "SimpleLine", "Polyline", "Polygon"}
 LenShapes == {"RectLen", "CircleLen"}      \* cannot be decomposed before they are rendered: only copy and * apply
 Groups   == {"Group", "GroupNested", "GroupMixed"}
-AllOps   == {"copy", "mul", "abs", "topath", "inv", "matmul", "add", "radd", "mulid", "pathadd", "addpath"}
+AllOps   == {"copy", "mul", "abs", "topath", "inv", "matmul", "add", "radd", "mulid", "pathadd", "addpath", "subadd", "addsub", "pathiadd"}
 OpsOf(k) ==
   {"copy"} \cup
-  (IF k \in Segments \cup Shapes \cup LenShapes \cup Groups \cup {"Point", "Matrix", "Text", "Image", "Subpath"} THEN {"mul"} ELSE {}) \cup
+  (IF k \in Segments \cup Shapes \cup LenShapes \cup Groups \cup {"Point", "Matrix", "Text", "Image", "Subpath", "TextLen", "ImageLen"} THEN {"mul"} ELSE {}) \cup
   (IF k \in Shapes \cup {"Text", "Image"} THEN {"abs"} ELSE {}) \cup
   (IF k \in Shapes \cup {"Subpath"} THEN {"topath"} ELSE {}) \cup
   (IF k = "Matrix" THEN {"inv", "matmul"} ELSE {}) \cup
   (IF k \in {"Path", "PathT", "Point", "Length"} \cup Segments THEN {"add"} ELSE {}) \cup
   (IF k \in {"Path", "PathT"} THEN {"radd"} ELSE {}) \cup
-  (IF k \in Segments THEN {"pathadd", "addpath"} ELSE {}) \cup                                   \* Path + x, x + Path (x a segment)                                      \* "path data" + x
+  (IF k \in Segments THEN {"pathadd", "addpath", "subadd", "addsub"} ELSE {}) \cup
+  (IF k \in {"Path", "PathT"} THEN {"pathadd", "pathiadd"} ELSE {}) \cup                                   \* Path + x, x + Path (x a segment)                                      \* "path data" + x
   (IF k \in Segments \cup Shapes \cup Groups \cup {"Point", "Text", "Image", "Subpath"} THEN {"mulid"} ELSE {})   \* x * identity
 ResultKind(k, o) ==
   IF o = "topath" THEN "Path"
-  ELSE IF o \in {"add", "pathadd", "addpath"} /\ k \in Segments THEN "Path"
+  ELSE IF o \in {"add", "pathadd", "addpath", "addsub"} /\ k \in Segments THEN "Path"
+  ELSE IF o = "subadd" THEN "Subpath"
+  ELSE IF o \in {"pathadd", "pathiadd"} THEN "Path"
   ELSE IF o \in {"mul", "mulid", "copy", "abs"} /\ k = "Subpath" THEN "Subpath"
   ELSE k
 AllMuts == {"setx", "imul", "seta", "post_translate", "reset", "imatmul", "setred", "setopacity", "iadd", "setamount", "imul_num",
             "setend", "setstart", "setpt", "reify", "paint", "setfill", "sw", "tredit", "values", "append", "delete", "setitem",
-            "setid", "reverse", "iadd_str", "setgeom", "ptappend", "childedit", "childtredit", "settext", "seturl"}
+            "setid", "reverse", "iadd_str", "setgeom", "scalegeom", "ptappend", "childedit", "childtredit", "settext", "seturl"}
 MutsOf(k) ==
   IF k = "Point" THEN {"setx", "imul"}
   ELSE IF k = "Matrix" THEN {"seta", "post_translate", "reset", "imatmul"}
@@ -56,8 +60,11 @@ MutsOf(k) ==
   ELSE IF k \in {"Path", "PathT"} THEN {"setpt", "imul", "reify", "paint", "setfill", "sw", "tredit", "values", "append",
                                         "delete", "setitem", "setid", "reverse", "iadd_str"}
   ELSE IF k = "Subpath" THEN {"setpt", "imul", "reverse"}
-  ELSE IF k \in {"Rect", "RRect", "Circle", "Ellipse", "SimpleLine", "RectLen", "CircleLen"} THEN
+  ELSE IF k \in {"Rect", "RRect", "Circle", "Ellipse", "SimpleLine"} THEN
                        {"setgeom", "imul", "reify", "paint", "setfill", "sw", "tredit", "values", "setid"}
+  ELSE IF k \in LenShapes THEN {"setgeom", "scalegeom", "imul", "reify", "paint", "setfill", "sw", "tredit", "values", "setid"}
+  ELSE IF k \in {"TextLen", "ImageLen"} THEN {"scalegeom", "imul", "values", "tredit"}
+  ELSE IF k = "MatrixLen" THEN {"scalegeom", "post_translate", "seta"}
   ELSE IF k \in {"Polyline", "Polygon"} THEN {"setpt", "ptappend", "imul", "reify", "paint", "sw", "tredit", "values"}
   ELSE IF k \in Groups THEN {"imul", "reify", "values", "append", "delete", "childedit", "childtredit", "setid"}
   ELSE IF k = "Text" THEN {"imul", "reify", "paint", "settext", "values", "tredit"}
